@@ -217,7 +217,9 @@ def record(key, rec=0):
             vals.append(sp)
         elif s == "status":
             c = sys.modules["psutil." + CEXT[CFG["family"]]]
-            vals.append(c.SZOMB if (W.state == "zombie") else (c.SACTIVE if PLAT == "aix" else c.SRUN))
+            # OpenBSD reports an exited, not yet reaped process as SDEAD (sys/proc.h: SZOMB unused)
+            zs = c.SDEAD if PLAT == "openbsd" else c.SZOMB
+            vals.append(zs if (W.state == "zombie") else (c.SACTIVE if PLAT == "aix" else c.SRUN))
         else:
             vals.append(slot_value(CFG["keys"], key, i, rec, W.scale))
     return tuple(vals)
